@@ -89,6 +89,34 @@ int main(void) {
 }
 '''
 
+
+# computed controlling expressions of a type narrower than int (seeded round 8, C15-switch-value-not-promoted): the value a
+# cast, an assignment, ++ or a call leaves in a temporary has excess high bits until the integer promotion extends it
+_NARROW = [('unsigned char', 'uc', [0, 1, 0x41, 0x80, 255]), ('signed char', 'sc', [0, 1, 0x41, -128, -1]), ('char', 'pc', [0, 1, 0x41, -128, -1]),
+           ('short', 'ss', [0, 1, 0x141, -32768, -1, 0x7fff]), ('unsigned short', 'us', [0, 1, 0x141, 0x8000, 0xffff]), ('_Bool', 'bo', [0, 1])]
+_NFORMS = [('cast', '', '(%(t)s)x'), ('assign', '%(t)s s;', 's = x'), ('addassign', '%(t)s s = x;', 's += 1'), ('preinc', '%(t)s s = x;', '++s'),
+           ('postdec', '%(t)s s = x;', 's--'), ('call', '', 'ret_%(n)s(x)'), ('castderef', 'int b[1]; int *p = b; b[0] = x;', '(%(t)s)*p'),
+           ('comma', '%(t)s s;', '(s = x, s)'), ('cond', '%(t)s s = x, q = x;', 'x ? s : q'), ('castlong', 'long l = x; l += 4294967296L;', '(%(t)s)l')]
+_NPROBES = [0, 1, 2, 0x41, 0x7f, 0x80, 0xff, 0x100, 0x101, 0x141, 0x180, 0x1ff, 0x7fff, 0x8000, 0xffff, 0x10000, 0x10001, 0x10041, 0x10141, 0x18000, -1, -2, -128, -129, -32768, -32769, 0x7fffffff, -0x7fffffff - 1]
+
+
+def narrow_unit():
+    out, calls = [], []
+    for t, n, labels in _NARROW:
+        out.append('static %s ret_%s(int x) { return x; }\n' % (t, n))
+        for fn, pre, ctl in _NFORMS:
+            d = dict(t=t, n=n)
+            body = ' '.join('case %d: return %d;' % (v, k + 1) for k, v in enumerate(labels))
+            out.append('static int nw_%s_%s(int x) { %s switch (%s) { %s } return 0; }\n' % (n, fn, pre % d, ctl % d, body))
+            calls.append('nw_%s_%s' % (n, fn))
+    out.append('static int (*const nwf[])(int) = {%s};\nstatic const int nwp[] = {%s};\n' % (', '.join(calls), ', '.join('%d' % v if v != -0x80000000 else '-2147483647 - 1' for v in _NPROBES)))
+    main = '\tfor (unsigned f = 0; f < sizeof nwf / sizeof *nwf; ++f) { for (unsigned p = 0; p < sizeof nwp / sizeof *nwp; ++p) printf("%d ", nwf[f](nwp[p])); printf("\\n"); }\n'
+    return ''.join(out), main
+
+
+_nsrc, _nmain = narrow_unit()
+TEMPLATES = TEMPLATES.replace('int main(void) {\n', _nsrc + 'int main(void) {\n' + _nmain, 1)
+
 REJECTS = [
     ('dup-case', 'int f(int v) { switch (v) { case 1: return 1; case 1: return 2; } return 0; }'),
     ('dup-case-folded', 'int f(int v) { switch (v) { case 1: return 1; case 3 - 2: return 2; } return 0; }'),
